@@ -174,10 +174,12 @@ class IMEXRKEndPoint(_IMEXBase):
                 f = imex_mesh()
                 f.impl, f.expl = mk.vec(f'L.KI{m}', 'f'), mk.vec(f'L.KE{m}', 'f')
                 L.f[m] = f
+        from contracts.common import plant_earlier_end_value
+
         st = State(L=L, M=M, inst=inst, u0=cp(L.u[0]), call=L.sweep.compute_end_point)
         st.old_u = [cp(u) for u in L.u]
         st.old_f = [cp(f) for f in L.f]
-        return st
+        return plant_earlier_end_value(st, L, mk.vec('L.uend_old'))
 
     def post(self, st, old, result, exc):
         L, M, sw, inst = st.L, st.M, st.L.sweep, st.inst
@@ -185,6 +187,9 @@ class IMEXRKEndPoint(_IMEXBase):
         yield 'returns_normally', exc is None
         if exc is not None:
             return
+        from contracts.common import earlier_end_value_clause
+
+        yield earlier_end_value_clause(st, L)
         if inst.get('fresh'):
             yield 'no_stages_yet:end_value_is_u0', veq(L.uend, st.u0) and L.uend is not L.u[0]
             return
